@@ -3,6 +3,7 @@ Driver of the executable primitive library: `harness/prim` compares every answer
 standard library (tools/prim_selftest.sh).  `drv_prim bench` prints measured throughput.
 -/
 import TdModel.Prim.SHA256
+import TdModel.Prim.SHA1
 open TdModel TdModel.Prim
 
 def hex1 (f : Bytes → String) (a : String) : String :=
@@ -13,6 +14,7 @@ def hex1 (f : Bytes → String) (a : String) : String :=
 def handle (line : String) : String :=
   match words line with
   | ["sha256", a] => hex1 (fun x => toHex (sha256 x)) a
+  | ["sha1", a] => hex1 (fun x => toHex (sha1 x)) a
   | _ => "bad-op"
 
 def main (args : List String) : IO Unit :=
